@@ -160,6 +160,9 @@ func TestC14(t *testing.T) {
 			limit = []int{100, 100, 99}[d.Uni(3, "biglimit")]
 		}
 		limit = min(100, max(1, limit))
+		if big {
+			limit = max(limit, 25) // the traversal is followed for at most 60 pages (a harness bound, not the server's)
+		}
 		mkReq := func(sortId *int64) *t_api.Request {
 			if schedules {
 				return &t_api.Request{Kind: t_api.SearchSchedules, SearchSchedules: &t_api.SearchSchedulesRequest{Id: pattern, Tags: qtags, Limit: limit, SortId: sortId}}
